@@ -51,9 +51,11 @@ func propC06(r *kernel.Run) {
 		r.HarnessErr("bootstrap roots: %v", err)
 	}
 	var max time.Duration
-	switch tp.Draw(4) {
+	switch tp.Draw(5) {
 	case 0:
 		max = nodeenrollment.DefaultMaximumServerLedActivationTokenLifetime
+	case 4:
+		max = 0 // every token whose age exceeds zero is expired
 	case 1:
 		max = time.Duration(tp.Range(1, 50))
 	default:
